@@ -315,8 +315,14 @@ func (r *Raft) onInstallSnapRequest(req *installSnapReq, c *conn) (rpcResult, er
 		}
 		termsMatched := metaTerm == meta.term
 		if termsMatched {
-			// remove <=meta.index, but retain following it
-			if err = r.compactLog(meta.index); err != nil {
+			// remove <=meta.index, but retain following it: not beyond what the
+			// fsm has applied, it reads the entries it applies from this log
+			// (lastApplied also waits for the applies already queued)
+			lte := meta.index
+			if applied := r.lastApplied(); applied < lte {
+				lte = applied
+			}
+			if err = r.compactLog(lte); err != nil {
 				return unexpectedErr, err
 			}
 			discardLog = false
